@@ -161,7 +161,7 @@ class Driver:
                  ("copy", .5), ("copy_ctor", .6), ("relabel_copy", .8), ("subgraph", 1.0), ("compose", .8),
                  ("compose_components", .4), ("json_roundtrip", .4)]
         if roles:
-            table += [("add_formed_bond", 3), ("add_broken_bond", 3), ("add_fleeting_bond", 2), ("add_bond_badrole", .3),
+            table += [("add_formed_bond", 3), ("add_broken_bond", 3), ("add_fleeting_bond", 2), ("add_bond_badrole", .3), ("add_formed_badrole", .3), ("add_broken_badrole", .2), ("add_fleeting_badrole", .2),
                       ("set_bond_badrole", .3), ("set_bond_role", 1.5), ("del_bond_role", .7), ("reverse", .5),
                       ("reactant", .5), ("product", .5)]
         if stereo:
@@ -204,7 +204,7 @@ class Driver:
         if n in ("add_formed_bond", "add_broken_bond", "add_fleeting_bond"):
             a, b = self.bond_pair(g, 0.1)
             return base_op(n, a=a, b=b)
-        if n in ("remove_bond", "has_bond", "add_bond_badrole", "set_bond_badrole", "del_bond_role", "get_bond_stereo",
+        if n in ("remove_bond", "has_bond", "add_bond_badrole", "set_bond_badrole", "add_formed_badrole", "add_broken_badrole", "add_fleeting_badrole", "del_bond_role", "get_bond_stereo",
                  "del_bond_stereo", "get_bond_stereo_change"):
             a, b = self.bond_pair(g)
             return base_op(n, a=a, b=b)
